@@ -176,6 +176,9 @@ func checkC16(c *Ctx) {
 		})
 	}
 	checkLegacyRootResave(c)
+	checkLegacySyntheticKey(c)
+	// a rollback into the legacy range also removes what later commits re-saved in the new key-space
+	checkRollbackRange(c)
 	checkLegacyOrphanTable(c)
 	// pruning across the boundary
 	dvt := l.Func("", "*nodeDB.deleteVersionsTo")
@@ -535,5 +538,57 @@ func checkLegacyRootResave(c *Ctx) {
 	}
 	if n == 0 {
 		c.anchorMissing(R, "SaveVersion no longer calls SaveRoot")
+	}
+}
+
+// checkLegacySyntheticKey: a node decoded from the legacy format carries the
+// synthetic node key (its legacy version, nonce 0); that key is the same for
+// EVERY legacy node of that version.  Writing such a node under that key is
+// only collision-free if at most one node per legacy version is ever re-saved.
+// Decided: no SaveNode call is reachable on the `isLegacy` edge of its
+// argument.  (Today SaveVersion does exactly that for a legacy root: known
+// finding — two legacy nodes of one version promoted to root by successive
+// commits overwrite each other.)
+func checkLegacySyntheticKey(c *Ctx) {
+	l := c.L
+	const R = "OWN-legacy-synthetic-key"
+	c.rule(R, "a node decoded from the legacy format is not stored under its synthetic (legacy version, 0) node key", 1)
+	saveNode := l.Func("", "*nodeDB.SaveNode")
+	fLegacy := l.Field("", "Node", "isLegacy")
+	if saveNode == nil || fLegacy == nil {
+		c.anchorMissing(R, "nodeDB.SaveNode / Node.isLegacy")
+		return
+	}
+	n := 0
+	for _, fn := range l.SrcFuncs {
+		if l.pkgPathOf(fn) != l.ModPath {
+			continue
+		}
+		for _, in := range callsIn(fn, predStatic(saveNode)) {
+			arg := stripTrivial(callCommon(in).Args[1])
+			path := accessPath(arg)
+			onLegacy := false
+			for _, b := range fn.Blocks {
+				iff := ifOf(b)
+				if iff == nil {
+					continue
+				}
+				v := stripTrivial(iff.Cond)
+				if !isLoadOfField(fLegacy)(v) {
+					continue
+				}
+				ld := v.(*ssa.UnOp)
+				fa := ld.X.(*ssa.FieldAddr)
+				if (accessPath(stripTrivial(fa.X)) == path || stripTrivial(fa.X) == arg) && edgeDominates(b, 0, in.Block()) {
+					onLegacy = true
+				}
+			}
+			n++
+			c.decide(R, l.fname(fn)+" saves "+path, l.ipos(in), !onLegacy, "not on an `isLegacy` edge of the saved node",
+				"a node known to come from the legacy format is saved under its own node key, which is (legacy version, 0) for every legacy node of that version: a second such node of the same version overwrites the first, and the version that referenced the first silently gets another root")
+		}
+	}
+	if n < 2 {
+		c.anchorMissing(R, "fewer than 2 SaveNode call sites")
 	}
 }
